@@ -138,7 +138,7 @@ func vfC14Gen(rt *rapid.T) vfC14Case {
 				q = g.draw(rt, "q")
 			}
 			op := vfVecOp{Op: "search", Vec: q}
-			op.K = rapid.IntRange(-2, len(live)+2).Draw(rt, "k")
+			op.K = vfGenK(rt, -2, len(live), 2)
 			switch rapid.IntRange(0, 3).Draw(rt, "thr_class") {
 			case 0:
 				op.Thr = float32(rapid.Float64Range(0, 6).Draw(rt, "thr"))
